@@ -194,9 +194,13 @@ def h_obsrange(T, L, P):
         obs, fcst = S.array("obs", shape), S.array("fcst", shape)
         lo, hi = S.real("lo"), S.real("hi")
         S.assume(lo <= hi)
+        # the observation is the obs column, or another column designated with -obs FIELD
+        designated = S.choose("obs-field", 2)
+        stored_obs = S.array("stored-obs", shape, nan=False) if designated else obs
         inp = MI("A.txt", common.int_array(S, [86400 * i for i in range(T)]), S.vector([0.0, 30.0][:L]),
-                 common.locations(list(range(1, P + 1))), obs=obs.copy(), fcst=fcst.copy())
-        D = data.Data([inp], obs_range=[lo, hi])
+                 common.locations(list(range(1, P + 1))), obs=stored_obs.copy(), fcst=fcst.copy(),
+                 others={"extra": obs.copy()} if designated else None)
+        D = data.Data([inp], obs_range=[lo, hi], obs_field=f.Other("extra")) if designated else data.Data([inp], obs_range=[lo, hi])
         which = S.choose("request", 3)
         cells = list(np.ndindex(*shape))
         if which == 0:
